@@ -2103,34 +2103,6 @@ func (k *Kernel) handleReplayedHeader(
 		}
 	}
 
-	// Now the voting view matches the height and round of the incoming replayed proof.
-	// It is possible that we already saw the incoming header and got stuck leading to a replay.
-	// Make sure we have only one copy.
-	if !slices.ContainsFunc(s.Voting.ProposedHeaders, func(ph tmconsensus.ProposedHeader) bool {
-		return bytes.Equal(ph.Header.Hash, header.Hash)
-	}) {
-		// Didn't have the hash, so append it...
-		// but we only have a Header, not a proposed Header, so we leave a couple fields blank.
-		// This seems acceptable but there is a chance it could cause something to break.
-		fakePH := tmconsensus.ProposedHeader{
-			Header: header,
-			Round:  proof.Round,
-			// Explicitly missing ProposerPubKey, Annotations, and Signature.
-			// That is fine, as noted in the documentation for the RoundStore.
-		}
-
-		if err := k.rStore.SaveRoundReplayedHeader(ctx, header); err != nil {
-			return tmelink.ReplayedHeaderInternalError{
-				Err: fmt.Errorf(
-					"failed to save replayed header to round store: %w",
-					err,
-				),
-			}
-		}
-
-		s.Voting.ProposedHeaders = append(s.Voting.ProposedHeaders, fakePH)
-	}
-
 	// Now ensure we have majority vote power,
 	// otherwise the replay cannot proceed.
 	headerProof, ok := tempProofs[string(header.Hash)]
@@ -2163,6 +2135,37 @@ func (k *Kernel) handleReplayedHeader(
 				maj, header.Hash, blockPow,
 			),
 		}
+	}
+
+	// The replayed header is acceptable.
+	// (Only now may it enter the voting view and the round store:
+	// a rejected replay must not leave its header behind in a view nobody is told about.)
+	// The voting view matches the height and round of the incoming replayed proof.
+	// It is possible that we already saw the incoming header and got stuck leading to a replay.
+	// Make sure we have only one copy.
+	if !slices.ContainsFunc(s.Voting.ProposedHeaders, func(ph tmconsensus.ProposedHeader) bool {
+		return bytes.Equal(ph.Header.Hash, header.Hash)
+	}) {
+		// Didn't have the hash, so append it...
+		// but we only have a Header, not a proposed Header, so we leave a couple fields blank.
+		// This seems acceptable but there is a chance it could cause something to break.
+		fakePH := tmconsensus.ProposedHeader{
+			Header: header,
+			Round:  proof.Round,
+			// Explicitly missing ProposerPubKey, Annotations, and Signature.
+			// That is fine, as noted in the documentation for the RoundStore.
+		}
+
+		if err := k.rStore.SaveRoundReplayedHeader(ctx, header); err != nil {
+			return tmelink.ReplayedHeaderInternalError{
+				Err: fmt.Errorf(
+					"failed to save replayed header to round store: %w",
+					err,
+				),
+			}
+		}
+
+		s.Voting.ProposedHeaders = append(s.Voting.ProposedHeaders, fakePH)
 	}
 
 	// Store the updated proofs back into the long-lived local set.
